@@ -33,6 +33,8 @@ fn inst_enum(tier: Tier, shard: usize, sink: &mut dyn FnMut(Inst) -> bool) {
 fn inst_strategy() -> BS<Inst> {
     let g = wunion(vec![
         (5, ns1900_0001_9999()),
+        // exact noon, midnight and whole seconds (the convenience constructors' domain)
+        (2, (day_0001_9999(), prop::sample::select(vec![0i128, 12 * NS_H, 43_199 * NS_S, 86_399 * NS_S])).prop_map(|(d, t)| d as i128 * NS_D + t).boxed()),
         (1, (-30_000i64..=30_000, 0i64..365, tod_any()).prop_map(|(y, k, t)| (days_1900(y, 1, 1) + k) as i128 * NS_D + t).boxed()),
         // around each scale's reference and 1900
         (1, (0usize..9, near_offset()).prop_map(|(s, off)| greg_offset_ns(s) + off).boxed()),
@@ -67,6 +69,33 @@ fn inst_oracle(c: &Inst) -> Verdict {
         match back {
             Ok(b) => ensure!(b.time_scale == ts && b.duration.to_parts() == e.duration.to_parts(), "fields {} fed back give count {}, want {}", want, count(b.duration), cnt),
             Err(err) => return Verdict::Fail(format!("fields {} fed back are rejected: {:?}", want, err)),
+        }
+    }
+    // ... and through the convenience constructors that fit these fields
+    if c.full && (i32::MIN as i64..=i32::MAX as i64).contains(&g.y) {
+        let (y, m, d, hh, mm, ss) = (g.y as i32, g.m as u8, g.d as u8, g.hh as u8, g.mm as u8, g.ss as u8);
+        let same = |b: Epoch| b.time_scale == ts && b.duration.to_parts() == e.duration.to_parts();
+        ensure!(same(lib!(Epoch::from_gregorian(y, m, d, hh, mm, ss, g.ns, ts))), "from_gregorian of the fields {} differs", want);
+        if g.ns == 0 {
+            ensure!(same(lib!(Epoch::from_gregorian_hms(y, m, d, hh, mm, ss, ts))), "from_gregorian_hms of the fields {} differs", want);
+            if (hh, mm, ss) == (0, 0, 0) {
+                ensure!(same(lib!(Epoch::from_gregorian_at_midnight(y, m, d, ts))), "from_gregorian_at_midnight of the fields {} differs", want);
+            }
+            if (hh, mm, ss) == (12, 0, 0) {
+                ensure!(same(lib!(Epoch::from_gregorian_at_noon(y, m, d, ts))), "from_gregorian_at_noon of the fields {} differs", want);
+            }
+        }
+        if c.s == S_UTC {
+            ensure!(same(lib!(Epoch::from_gregorian_utc(y, m, d, hh, mm, ss, g.ns))), "from_gregorian_utc of the fields {} differs", want);
+            if g.ns == 0 && (hh, mm, ss) == (12, 0, 0) {
+                ensure!(same(lib!(Epoch::from_gregorian_utc_at_noon(y, m, d))), "from_gregorian_utc_at_noon differs");
+            }
+        }
+        if c.s == S_TAI {
+            ensure!(same(lib!(Epoch::from_gregorian_tai(y, m, d, hh, mm, ss, g.ns))), "from_gregorian_tai of the fields {} differs", want);
+            if g.ns == 0 && (hh, mm, ss) == (12, 0, 0) {
+                ensure!(same(lib!(Epoch::from_gregorian_tai_at_noon(y, m, d))), "from_gregorian_tai_at_noon differs");
+            }
         }
     }
     // accessors
